@@ -741,3 +741,25 @@ Section Values.
     unfold env_for_node, env_with_name. destruct (selected c launch name); split; intros H; try discriminate; reflexivity.
   Qed.
 End Values.
+
+(* ------------------------------------------------------------------ spelling of the requested name *)
+Lemma norm_name_case n : norm_name (Some (lower n)) = norm_name (Some n).
+Proof.
+  destruct n as [|a s]; [reflexivity|]. unfold norm_name. cbn [lower]. rewrite lower_ascii_idem, lower_idem. reflexivity.
+Qed.
+
+Lemma selected_case c launch n : selected c launch (Some (lower n)) = selected c launch (Some n).
+Proof. unfold selected. rewrite norm_name_case. reflexivity. Qed.
+
+Lemma for_node_case tsub osexp fillin c launch n interp :
+  env_for_node tsub osexp fillin c launch (Some (lower n)) interp =
+  env_for_node tsub osexp fillin c launch (Some n) interp.
+Proof. unfold env_for_node, env_with_name. rewrite selected_case. reflexivity. Qed.
+
+(* declared names that are already lower-case are left alone by from_dict *)
+Lemma lower_names_id E : Forall (fun n => lower n = n) (keys E) -> lower_names E = E.
+Proof.
+  unfold lower_names. generalize (keys E) as ks. intros ks H. revert E.
+  induction H as [|n r Hn _ IH]; intros E; cbn [fold_left]; [reflexivity|].
+  unfold lower_step at 2. rewrite Hn, String.eqb_refl. apply IH.
+Qed.
